@@ -7,12 +7,6 @@ From BT Require Import Base.Util Base.Sexp Base.Float Model.RTree Model.BBIFile 
 Local Open Scope N_scope.
 
 (* ---- bigBed ---- *)
-Definition opt_meet (f : N -> N -> N) (a b : option N) : option N :=
-  match a, b with
-  | None, x | x, None => x
-  | Some x, Some y => Some (f x y)
-  end.
-
 Definition bb_expected (c : sexp) : N * N * N * N * option N * option N :=   (* items bases sum sumsq min max *)
   let dls := map (fun ch => depth_list (snd ch)) (case_chroms c) in
   (Nlen (getL (nthS 3 c)),
